@@ -132,7 +132,7 @@ std::string Canon(const std::chrono::duration<TRep, TPeriod>& d)
 		const int64_t c = static_cast<int64_t>(d.count());
 		int64_t s = c / per, r = c % per;
 		if (r < 0) { r += per; s -= 1; }
-		return "[\"ts\"," + std::string(s < 0 ? "true" : "false") + "," + Mag8(s < 0 ? 0 - static_cast<uint64_t>(s) : static_cast<uint64_t>(s)) + "," + std::to_string(r * (1000000000 / per)) + "]";
+		return "[\"ts\"," + std::string(s < 0 ? "true" : "false") + "," + Mag8(s < 0 ? 0 - static_cast<uint64_t>(s) : static_cast<uint64_t>(s)) + "," + std::to_string(static_cast<int64_t>((static_cast<__int128>(r) * 1000000000) / per)) + "]";	// exact also for periods that do not divide 10^9
 	}
 	else {
 		// coarser than or equal to seconds: log the raw count and the unit (seconds per tick)
@@ -240,6 +240,7 @@ void WithType(const std::string& t, F&& f)
 	else if (t == "tp_ms") f(static_cast<TpMs*>(nullptr));
 	else if (t == "tp_s") f(static_cast<TpS*>(nullptr));
 	else if (t == "dur_ns") f(static_cast<std::chrono::nanoseconds*>(nullptr));
+	else if (t == "dur_60th") f(static_cast<std::chrono::duration<int64_t, std::ratio<1, 60>>*>(nullptr));
 	else if (t == "dur_s") f(static_cast<std::chrono::seconds*>(nullptr));
 	else if (t == "vec_i32") f(static_cast<std::vector<int32_t>*>(nullptr));
 	else if (t == "vec_u8") f(static_cast<std::vector<uint8_t>*>(nullptr));       // binary container
@@ -283,6 +284,12 @@ template <class T> void FromCanon(const JVal& v, T& out)
 	else if constexpr (std::is_same_v<T, std::string>) out = BytesFromJson(v[1]);
 	else if constexpr (std::is_same_v<T, std::u16string>) out = Utf16FromCps(CpsFromUtf8(BytesFromJson(v[1])));
 	else if constexpr (std::is_same_v<T, std::u32string>) out = CpsFromUtf8(BytesFromJson(v[1]));
+	else if constexpr (std::is_same_v<T, std::chrono::duration<int64_t, std::ratio<1, 60>>>) {
+		// ["ts", neg, mag8(seconds), nanoseconds] -> ticks of 1/60 s: the tick count whose floor-conversion gives these nanoseconds
+		const int64_t sec = SignedFrom(v[1], v[2]);
+		const int64_t ns = v[3].GetInt64();
+		out = T(sec * 60 + (ns * 60 + 999999999) / 1000000000);
+	}
 	else if constexpr (std::is_same_v<T, TpNs> || std::is_same_v<T, TpMs> || std::is_same_v<T, std::chrono::nanoseconds>) {
 		// ["ts", neg, mag8(seconds), nanoseconds]  (floor convention: nanoseconds in 0..999999999)
 		const int64_t s = SignedFrom(v[1], v[2]);
